@@ -204,13 +204,17 @@ func matchElement(segs []Segment, name string) bool {
 	if len(name) > 0 && name[0] == '.' && IsWild(segs[0]) && !segs[0].(Wild).MatchHidden {
 		return false
 	}
-	return matchSegments(segs, name)
+	return matchSegments(segs, name, true)
 }
 
 // Matches name against segs, trying all the ways a star can match. Stars with
 // restricted character sets mean that taking the shortest match for one star
 // can make a later one fail, so backtracking is needed.
-func matchSegments(segs []Segment, name string) bool {
+//
+// The atStart argument indicates whether name is still the entire name of the
+// path component; a leading dot can only be matched by a wildcard that has
+// MatchHidden.
+func matchSegments(segs []Segment, name string, atStart bool) bool {
 	if len(segs) == 0 {
 		return name == ""
 	}
@@ -233,8 +237,8 @@ func matchSegments(segs []Segment, name string) bool {
 	segs = segs[i:]
 
 	// Match at the current position.
-	ok, rest := matchFixedLength(chunk, name)
-	if ok && matchSegments(segs, rest) {
+	ok, rest := matchFixedLength(chunk, name, atStart)
+	if ok && matchSegments(segs, rest, atStart && rest == name) {
 		return true
 	}
 
@@ -246,8 +250,11 @@ func matchSegments(segs []Segment, name string) bool {
 			if !startingStar.Match(r) {
 				break
 			}
-			ok, rest := matchFixedLength(chunk, name[j:])
-			if ok && matchSegments(segs, rest) {
+			if i == 0 && atStart && r == '.' && !startingStar.MatchHidden {
+				break
+			}
+			ok, rest := matchFixedLength(chunk, name[j:], false)
+			if ok && matchSegments(segs, rest, false) {
 				return true
 			}
 			i = j
@@ -259,8 +266,8 @@ func matchSegments(segs []Segment, name string) bool {
 // matchFixedLength returns whether a run of fixed-length segments (Literal and
 // Question) matches a prefix of name. It returns whether the match is
 // successful and if it is, the remaining part of name.
-func matchFixedLength(segs []Segment, name string) (bool, string) {
-	for _, seg := range segs {
+func matchFixedLength(segs []Segment, name string, atStart bool) (bool, string) {
+	for i, seg := range segs {
 		if name == "" {
 			return false, ""
 		}
@@ -275,6 +282,9 @@ func matchFixedLength(segs []Segment, name string) (bool, string) {
 			if seg.Type == Question {
 				r, n := utf8.DecodeRuneInString(name)
 				if !seg.Match(r) {
+					return false, ""
+				}
+				if i == 0 && atStart && r == '.' && !seg.MatchHidden {
 					return false, ""
 				}
 				name = name[n:]
